@@ -100,4 +100,11 @@ CHECKS = {
  'jobs': [{'pkg': 'c10', 'run': 'TestEncode', 'checks': {'quick': 12000, 'thorough': 640000}, 'shards': {'quick': 4, 'thorough': 16}},
           {'pkg': 'c10', 'run': 'TestDecode', 'checks': {'quick': 16000, 'thorough': 640000}, 'shards': {'quick': 4, 'thorough': 16}},
           {'pkg': 'c10', 'run': 'TestEndToEnd', 'checks': {'quick': 4000, 'thorough': 160000}, 'shards': {'quick': 4, 'thorough': 16}}]},
+    'C09': {'level': 'exploration',
+ 'assumptions': ['the limit is asserted for messages; protocol terminator frames (gRPC-Web trailers, Connect end-of-stream) that are themselves larger than N '
+                 'are kept out of the domain',
+                 "allocation is measured with runtime.MemStats.TotalAlloc around one synchronous call in a process of its own (GOMAXPROCS=1); the bound's "
+                 'constant (4 MiB) covers one-off compressor state'],
+ 'jobs': [{'pkg': 'c09', 'run': 'TestLimits', 'checks': {'quick': 8000, 'thorough': 320000}, 'shards': {'quick': 8, 'thorough': 16}},
+          {'pkg': 'c09', 'run': 'TestAlloc', 'gomaxprocs': 1}]},
 }
